@@ -10,6 +10,8 @@
 (*                     and the translation is injective                      *)
 (*   ProofLength       |proof| = 272 + 32 U determines U uniquely, and the   *)
 (*                     strict decoder's length rule accepts exactly these    *)
+(*   CommitLength      |commitment with proof| = 48 + 32 (M + 2) determines  *)
+(*                     M; in-between lengths are explained by no M           *)
 (*   UpdateGuards      idx < n < MaxU implies no addition overflows          *)
 (*   GeneratorLoop     the inclusive generator loop forms no value > MaxU    *)
 (*   NaturalM          the guard U + R1 + R2 >= L + 1 makes                  *)
@@ -63,6 +65,14 @@ ProofLength ==
   /\ (len >= 272 /\ (len - 272) % 32 = 0) => (len = 272 + 32 * ((len - 272) \div 32) /\ (len - 272) \div 32 >= 0)
   /\ (len = 272 + 32 * U) => (len >= 272 /\ (len - 272) % 32 = 0)
 
+\* commitment with proof: 48 + 32 (M + 2) octets; the signer derives M from the length
+CommitLength ==
+  /\ (112 + 32 * U = 112 + 32 * U2) => U = U2
+  /\ (len >= 112 /\ (len - 112) % 32 = 0) => (len = 48 + 32 * (((len - 112) \div 32) + 2) /\ (len - 112) \div 32 >= 0)
+  /\ (len = 48 + 32 * (U + 2)) => (len >= 112 /\ (len - 112) % 32 = 0 /\ (len - 112) \div 32 = U)
+  \* lengths strictly between two valid ones are refused: no other M explains them
+  /\ (len >= 112 /\ (len - 112) % 32 # 0) => (len # 48 + 32 * (U + 2))
+
 UpdateGuards == (idx < n /\ n < MaxU) => (idx + 1 <= MaxU /\ n + 1 <= MaxU /\ idx + 1 < n + 1)
 
 NaturalM == (Tot >= L + 1) => (M >= 0 /\ (L + 1) + (M + 1) = Tot + 1)
@@ -71,5 +81,5 @@ NaturalM == (Tot >= L + 1) => (M >= 0 /\ (L + 1) + (M + 1) = Tot + 1)
 \* within the machine range (the exclusive bound count + 1 of the pinned code did not for n = MaxU - 1: F14)
 GeneratorLoop == (n < MaxU /\ i >= 1 /\ i <= n + 1) => i <= MaxU
 
-Lemmas == IndexTranslation /\ ProofLength /\ UpdateGuards /\ NaturalM /\ GeneratorLoop
+Lemmas == IndexTranslation /\ ProofLength /\ CommitLength /\ UpdateGuards /\ NaturalM /\ GeneratorLoop
 =============================================================================
